@@ -72,6 +72,7 @@ class PGWorld(World):
         k["ret"] = rng.choice(["fresh", "fresh", "reuse", "noncontig"])
         k["interfere"] = rng.random() < 0.2
         k["iterprox"] = rng.random() < 0.2
+        k["views"] = rng.random() < 0.2
         n = rng.randint(1, 6)
         k["Aalias"] = "none"
         if k["alg"] == "PDHG" and k["family"] != "spread" and rng.random() < 0.15:
@@ -226,6 +227,9 @@ class PGWorld(World):
         if k["start"] == "exact":
             x0 = xs.copy()
         x_caller = x0.reshape(xshape).copy()
+        if k.get("views"):
+            x_caller = common.as_view(x_caller)
+            stats["buggify.caller_arrays_are_views"] += 1
         ledger = Ledger()
         ledger.own("M", M)
         ledger.own("y", y)
@@ -327,6 +331,8 @@ class PGWorld(World):
             u_caller = codec.dec(plan["u0"]).astype(dt).reshape(ushape)
             if k["start"] == "exact":
                 u_caller = us.reshape(ushape).copy()
+            if k.get("views"):
+                u_caller = common.as_view(u_caller)
             u0 = u_caller.copy()
             normA = float(np.linalg.norm(M, 2))
             if normA == 0:
@@ -491,7 +497,7 @@ class PGWorld(World):
         res.nontrivial = st["judged"] > 0
         res.sim_time = float(st["k"])
         res.fingerprint = codec.json_digest([
-            k["alg"], cplx, gk, k["family"], k["form"], k["ret"], bool(k.get("interfere")), bool(k.get("iterprox")), k.get("Aalias"), n, m, k["start"], k.get("c"),
+            k["alg"], cplx, gk, k["family"], k["form"], k["ret"], bool(k.get("interfere")), bool(k.get("iterprox")), k.get("Aalias"), bool(k.get("views")), n, m, k["start"], k.get("c"),
             k.get("accelerate"), k.get("steps"), k.get("gamma"), k.get("long"), plan["K"],
             plan.get("max_iter", 0) < plan["K"],
             round(np.log10(plan["lam"])), round(2 * np.log10(k.get("sigma_rel", 1.0))),
